@@ -3,7 +3,7 @@
 
     [nwalks k n] has one entry (end node, last edge) per walk of exactly [k >= 1] edges from [n].
     Main result: [vle_from_walks]; the fuel [vle_fuel] is shown to be sufficient on the way
-    ([bfs_emit] with [sumC_init]). *)
+    ([bfs_emit] with [vle_sumC_init]). *)
 From Coq Require Import ZArith List Bool String Ascii Lia Permutation Arith.
 From GV Require Export Query.PatSpec.
 Import ListNotations.
@@ -71,13 +71,13 @@ Section Vle.
   Local Notation nw := (nwalks st ci d ty).
   Local Notation wc := (walk_count st ci d ty).
 
-  Definition inr (k : nat) : bool := Nat.leb mn k && Nat.leb k mx.
+  Definition vle_inr (k : nat) : bool := Nat.leb mn k && Nat.leb k mx.
 
   (** walks of [k] further edges after having arrived through [te] *)
-  Definition ext (k : nat) (te : Z * Z) : list (Z * Z) :=
+  Definition vle_ext (k : nat) (te : Z * Z) : list (Z * Z) :=
     match k with O => [te] | S _ => nw k (fst te) end.
 
-  Lemma nwalks_S : forall k n, nw (S k) n = flat_map (ext k) (nb n).
+  Lemma nwalks_S : forall k n, nw (S k) n = flat_map (vle_ext k) (nb n).
   Proof.
     intros [|k] n.
     - simpl. symmetry. apply fm_singleton.
@@ -85,115 +85,115 @@ Section Vle.
   Qed.
 
   (** everything a queue item will ever cause to be emitted, [k] = levels still to expand *)
-  Fixpoint emit_all (k : nat) (n : Z) (dep : nat) (e : Z) : list (Z * Z) :=
-    (if inr dep then [(n, e)] else []) ++
+  Fixpoint vle_emit_all (k : nat) (n : Z) (dep : nat) (e : Z) : list (Z * Z) :=
+    (if vle_inr dep then [(n, e)] else []) ++
     match k with
     | O => []
-    | S k' => flat_map (fun te => emit_all k' (fst te) (S dep) (snd te)) (nb n)
+    | S k' => flat_map (fun te => vle_emit_all k' (fst te) (S dep) (snd te)) (nb n)
     end.
 
-  Definition E (it : Z * nat * Z) : list (Z * Z) :=
-    emit_all (mx - snd (fst it)) (fst (fst it)) (snd (fst it)) (snd it).
+  Definition vle_E (it : Z * nat * Z) : list (Z * Z) :=
+    vle_emit_all (mx - snd (fst it)) (fst (fst it)) (snd (fst it)) (snd it).
   (** number of items an item will ever cause to be dequeued (itself included) *)
-  Definition C (it : Z * nat * Z) : nat := wc (mx - snd (fst it)) (fst (fst it)).
-  Definition sumC (q : list (Z * nat * Z)) : nat := fold_right (fun it acc => C it + acc) 0 q.
-  Definition kids (n : Z) (dep : nat) : list (Z * nat * Z) :=
+  Definition vle_C (it : Z * nat * Z) : nat := wc (mx - snd (fst it)) (fst (fst it)).
+  Definition vle_sumC (q : list (Z * nat * Z)) : nat := fold_right (fun it acc => vle_C it + acc) 0 q.
+  Definition vle_kids (n : Z) (dep : nat) : list (Z * nat * Z) :=
     map (fun te => (fst te, S dep, snd te)) (nb n).
 
-  Lemma sumC_app : forall q1 q2, sumC (q1 ++ q2) = sumC q1 + sumC q2.
+  Lemma vle_sumC_app : forall q1 q2, vle_sumC (q1 ++ q2) = vle_sumC q1 + vle_sumC q2.
   Proof. induction q1 as [|a q1 IH]; intros q2; simpl; [reflexivity|]. rewrite IH. lia. Qed.
 
-  Lemma sumC_map : forall dep (l : list (Z * Z)),
-    sumC (map (fun te => (fst te, dep, snd te)) l)
+  Lemma vle_sumC_map : forall dep (l : list (Z * Z)),
+    vle_sumC (map (fun te => (fst te, dep, snd te)) l)
     = fold_right (fun te acc => wc (mx - dep) (fst te) + acc) 0 l.
   Proof. intros dep l. induction l as [|a l IH]; simpl; [reflexivity|]. rewrite IH. reflexivity. Qed.
 
-  Lemma C_inner : forall n dep e, dep < mx -> C (n, dep, e) = S (sumC (kids n dep)).
+  Lemma vle_C_inner : forall n dep e, dep < mx -> vle_C (n, dep, e) = S (vle_sumC (vle_kids n dep)).
   Proof.
-    intros n dep e H. unfold C, kids. rewrite sumC_map. simpl fst; simpl snd.
+    intros n dep e H. unfold vle_C, vle_kids. rewrite vle_sumC_map. simpl fst; simpl snd.
     replace (mx - dep) with (S (mx - S dep)) by lia. reflexivity.
   Qed.
 
-  Lemma C_leaf : forall n dep e, mx <= dep -> C (n, dep, e) = 1.
+  Lemma vle_C_leaf : forall n dep e, mx <= dep -> vle_C (n, dep, e) = 1.
   Proof.
-    intros n dep e H. unfold C. simpl fst; simpl snd.
+    intros n dep e H. unfold vle_C. simpl fst; simpl snd.
     replace (mx - dep) with 0 by lia. reflexivity.
   Qed.
 
-  Lemma E_inner : forall n dep e, dep < mx ->
-    E (n, dep, e) = (if inr dep then [(n, e)] else []) ++ flat_map E (kids n dep).
+  Lemma vle_E_inner : forall n dep e, dep < mx ->
+    vle_E (n, dep, e) = (if vle_inr dep then [(n, e)] else []) ++ flat_map vle_E (vle_kids n dep).
   Proof.
-    intros n dep e H. unfold E at 1, kids. simpl fst; simpl snd.
+    intros n dep e H. unfold vle_E at 1, vle_kids. simpl fst; simpl snd.
     replace (mx - dep) with (S (mx - S dep)) by lia.
     rewrite fm_map. reflexivity.
   Qed.
 
-  Lemma E_leaf : forall n dep e, mx <= dep ->
-    E (n, dep, e) = (if inr dep then [(n, e)] else []).
+  Lemma vle_E_leaf : forall n dep e, mx <= dep ->
+    vle_E (n, dep, e) = (if vle_inr dep then [(n, e)] else []).
   Proof.
-    intros n dep e H. unfold E. simpl fst; simpl snd.
+    intros n dep e H. unfold vle_E. simpl fst; simpl snd.
     replace (mx - dep) with 0 by lia. simpl. apply app_nil_r.
   Qed.
 
   Lemma bfs_cons : forall f n dep e rest,
     bfs st ci d ty mn mx (S f) ((n, dep, e) :: rest)
-    = (if inr dep then [(n, e)] else [])
-      ++ bfs st ci d ty mn mx f (rest ++ (if Nat.ltb dep mx then kids n dep else [])).
+    = (if vle_inr dep then [(n, e)] else [])
+      ++ bfs st ci d ty mn mx f (rest ++ (if Nat.ltb dep mx then vle_kids n dep else [])).
   Proof. reflexivity. Qed.
 
   (** the queue discipline: with enough fuel the BFS emits what its queue items stand for *)
-  Lemma bfs_emit : forall fuel q, sumC q < fuel ->
-    Permutation (bfs st ci d ty mn mx fuel q) (flat_map E q).
+  Lemma bfs_emit : forall fuel q, vle_sumC q < fuel ->
+    Permutation (bfs st ci d ty mn mx fuel q) (flat_map vle_E q).
   Proof.
     induction fuel as [|f IH]; intros q Hq; [lia|].
     destruct q as [|[[n dep] e] rest]; [apply perm_nil|].
-    rewrite bfs_cons. change (sumC ((n, dep, e) :: rest)) with (C (n, dep, e) + sumC rest) in Hq.
-    change (flat_map E ((n, dep, e) :: rest)) with (E (n, dep, e) ++ flat_map E rest).
+    rewrite bfs_cons. change (vle_sumC ((n, dep, e) :: rest)) with (vle_C (n, dep, e) + vle_sumC rest) in Hq.
+    change (flat_map vle_E ((n, dep, e) :: rest)) with (vle_E (n, dep, e) ++ flat_map vle_E rest).
     destruct (Nat.ltb dep mx) eqn:Hlt.
-    - apply Nat.ltb_lt in Hlt. rewrite C_inner in Hq by exact Hlt.
-      rewrite E_inner by exact Hlt. rewrite <- app_assoc. apply Permutation_app_head.
+    - apply Nat.ltb_lt in Hlt. rewrite vle_C_inner in Hq by exact Hlt.
+      rewrite vle_E_inner by exact Hlt. rewrite <- app_assoc. apply Permutation_app_head.
       eapply Permutation_trans.
-      + apply IH. rewrite sumC_app. lia.
+      + apply IH. rewrite vle_sumC_app. lia.
       + rewrite flat_map_app. apply Permutation_app_comm.
-    - apply Nat.ltb_ge in Hlt. rewrite C_leaf in Hq by exact Hlt.
-      rewrite E_leaf by exact Hlt. apply Permutation_app_head.
+    - apply Nat.ltb_ge in Hlt. rewrite vle_C_leaf in Hq by exact Hlt.
+      rewrite vle_E_leaf by exact Hlt. apply Permutation_app_head.
       rewrite app_nil_r. apply IH. lia.
   Qed.
 
   (** what an item stands for, by walk length *)
-  Lemma emit_all_walks : forall k n dep e,
-    Permutation (emit_all k n dep e)
-                (flat_map (fun j => if inr (dep + j) then ext j (n, e) else []) (seq 0 (S k))).
+  Lemma vle_emit_all_walks : forall k n dep e,
+    Permutation (vle_emit_all k n dep e)
+                (flat_map (fun j => if vle_inr (dep + j) then vle_ext j (n, e) else []) (seq 0 (S k))).
   Proof.
     induction k as [|k IH]; intros n dep e.
     - simpl. rewrite Nat.add_0_r. apply Permutation_refl.
-    - change (emit_all (S k) n dep e)
-        with ((if inr dep then [(n, e)] else [])
-              ++ flat_map (fun te => emit_all k (fst te) (S dep) (snd te)) (nb n)).
+    - change (vle_emit_all (S k) n dep e)
+        with ((if vle_inr dep then [(n, e)] else [])
+              ++ flat_map (fun te => vle_emit_all k (fst te) (S dep) (snd te)) (nb n)).
       change (seq 0 (S (S k))) with (0 :: seq 1 (S k)).
-      cbn [flat_map]. rewrite Nat.add_0_r. cbn [ext].
+      cbn [flat_map]. rewrite Nat.add_0_r. cbn [vle_ext].
       apply Permutation_app_head.
       eapply Permutation_trans.
       { apply fm_ext_perm. intros te. apply IH. }
       eapply Permutation_trans.
-      { apply (fm_swap (fun (te : Z * Z) j => if inr (S dep + j) then ext j (fst te, snd te) else [])). }
+      { apply (fm_swap (fun (te : Z * Z) j => if vle_inr (S dep + j) then vle_ext j (fst te, snd te) else [])). }
       rewrite <- seq_shift, fm_map.
       erewrite flat_map_ext; [apply Permutation_refl|].
-      intros j. cbn beta. rewrite (fm_if (inr (S dep + j)) (fun te => ext j (fst te, snd te))).
+      intros j. cbn beta. rewrite (fm_if (vle_inr (S dep + j)) (fun te => vle_ext j (fst te, snd te))).
       replace (dep + S j) with (S dep + j) by lia.
-      destruct (inr (S dep + j)); [|reflexivity].
-      change (ext (S j) (n, e)) with (nw (S j) n). rewrite nwalks_S.
+      destruct (vle_inr (S dep + j)); [|reflexivity].
+      change (vle_ext (S j) (n, e)) with (nw (S j) n). rewrite nwalks_S.
       apply flat_map_ext. intros [t e']. reflexivity.
   Qed.
 
   (** regrouping the range test into the index range *)
   Lemma fm_range : forall (f : nat -> list (Z * Z)) len a, a + len = S mx ->
-    flat_map (fun k => if inr k then f k else []) (seq a len)
+    flat_map (fun k => if vle_inr k then f k else []) (seq a len)
     = flat_map f (seq (Nat.max a mn) (S mx - Nat.max a mn)).
   Proof.
     intros f. induction len as [|len IH]; intros a Ha.
     - replace (S mx - Nat.max a mn) with 0 by lia. reflexivity.
-    - cbn [seq flat_map]. rewrite IH by lia. unfold inr.
+    - cbn [seq flat_map]. rewrite IH by lia. unfold vle_inr.
       destruct (Nat.leb mn a) eqn:H1.
       + apply Nat.leb_le in H1.
         assert (H2 : Nat.leb a mx = true) by (apply Nat.leb_le; lia). rewrite H2. cbn [andb].
@@ -204,9 +204,9 @@ Section Vle.
         replace (Nat.max (S a) mn) with (Nat.max a mn) by lia. reflexivity.
   Qed.
 
-  Lemma sumC_init : forall s, sumC (kids s 0) < vle_fuel st ci d ty mx s.
+  Lemma vle_sumC_init : forall s, vle_sumC (vle_kids s 0) < vle_fuel st ci d ty mx s.
   Proof.
-    intros s. unfold kids, vle_fuel. rewrite sumC_map.
+    intros s. unfold vle_kids, vle_fuel. rewrite vle_sumC_map.
     replace (mx - 1) with (pred mx) by lia. lia.
   Qed.
 
@@ -215,30 +215,30 @@ Section Vle.
                 (flat_map (fun k => nw k s) (seq mn (S mx - mn))).
   Proof.
     intros s. unfold vle_from.
-    eapply Permutation_trans; [apply (bfs_emit _ (kids s 0)); apply sumC_init|].
-    unfold kids. rewrite fm_map.
+    eapply Permutation_trans; [apply (bfs_emit _ (vle_kids s 0)); apply vle_sumC_init|].
+    unfold vle_kids. rewrite fm_map.
     eapply Permutation_trans.
-    { apply fm_ext_perm. intros te. unfold E. cbn [fst snd]. apply emit_all_walks. }
+    { apply fm_ext_perm. intros te. unfold vle_E. cbn [fst snd]. apply vle_emit_all_walks. }
     eapply Permutation_trans.
-    { apply (fm_swap (fun (te : Z * Z) j => if inr (1 + j) then ext j (fst te, snd te) else [])). }
+    { apply (fm_swap (fun (te : Z * Z) j => if vle_inr (1 + j) then vle_ext j (fst te, snd te) else [])). }
     (* now indexed by j = length - 1 over seq 0 (S (mx - 1)) *)
     assert (Hstep : forall j,
-              flat_map (fun te : Z * Z => if inr (1 + j) then ext j (fst te, snd te) else []) (nb s)
-              = (fun k => if inr k then nw k s else []) (S j)).
-    { intros j. rewrite (fm_if (inr (1 + j)) (fun te => ext j (fst te, snd te))).
-      cbn beta. change (1 + j) with (S j). destruct (inr (S j)); [|reflexivity].
+              flat_map (fun te : Z * Z => if vle_inr (1 + j) then vle_ext j (fst te, snd te) else []) (nb s)
+              = (fun k => if vle_inr k then nw k s else []) (S j)).
+    { intros j. rewrite (fm_if (vle_inr (1 + j)) (fun te => vle_ext j (fst te, snd te))).
+      cbn beta. change (1 + j) with (S j). destruct (vle_inr (S j)); [|reflexivity].
       rewrite nwalks_S. apply flat_map_ext. intros [t e']. reflexivity. }
     rewrite (flat_map_ext _ _ Hstep).
-    rewrite <- (fm_map (fun k => if inr k then nw k s else []) S), seq_shift.
+    rewrite <- (fm_map (fun k => if vle_inr k then nw k s else []) S), seq_shift.
     (* seq 1 (S (mx - 1)) against seq 0 (S mx) *)
-    assert (H0 : flat_map (fun k => if inr k then nw k s else []) (seq 1 (S (mx - 1)))
-                 = flat_map (fun k => if inr k then nw k s else []) (seq 0 (S mx))).
+    assert (H0 : flat_map (fun k => if vle_inr k then nw k s else []) (seq 1 (S (mx - 1)))
+                 = flat_map (fun k => if vle_inr k then nw k s else []) (seq 0 (S mx))).
     { destruct mx as [|m] eqn:Hmx.
-      - cbn [seq flat_map]. unfold inr. rewrite Hmx.
+      - cbn [seq flat_map]. unfold vle_inr. rewrite Hmx.
         destruct (Nat.leb mn 1); destruct (Nat.leb mn 0); reflexivity.
       - replace (S m - 1) with m by lia.
         change (seq 0 (S (S m))) with (0 :: seq 1 (S m)). cbn [flat_map].
-        destruct (inr 0); reflexivity. }
+        destruct (vle_inr 0); reflexivity. }
     rewrite H0. rewrite (fm_range (fun k => nw k s) (S mx) 0) by lia.
     replace (Nat.max 0 mn) with mn by lia. apply Permutation_refl.
   Qed.
@@ -254,4 +254,3 @@ Corollary vle_from_walks_len : forall st ci d ty mn mx s,
   = List.length (flat_map (fun k => nwalks st ci d ty k s) (seq mn (S mx - mn))).
 Proof. intros. apply Permutation_length. apply vle_from_walks. Qed.
 
-Print Assumptions vle_from_walks.
